@@ -87,8 +87,10 @@ def execute(job):
     root = os.path.join(d, "root")
     init = job.get("init", {"f": "c1"})
     for n, c in init.items():
+        os.makedirs(os.path.dirname(os.path.join(root, n)), exist_ok=True)
         with open(os.path.join(root, n), "wb") as f:
             f.write(CONTENTS[c])
+    dirs = {n[:i] for n in init for i, ch in enumerate(n) if ch == "/"}          # paths that are directories on the hub
     program = job["program"]
     n = max(program)
     r = hc.HubRun(CFG["copia"], CFG["shim"], root, n, d, CONTENTS)
@@ -105,7 +107,9 @@ def execute(job):
                     op["wrong"] = "c1" if rq[3] != "c1" else "c2"
                 if k == "shortput":
                     op["len_delta"] = -5
-                op["valid"] = k == "put"
+                # a Put aimed at a path that is a directory cannot take effect: like a bad Put it must be answered by an
+                # error reply and change nothing
+                op["valid"] = k == "put" and rq[1] not in dirs
                 op["conf"] = rq[1] + "#" + rq[3]
             elif k == "delete":
                 op = {"kind": "delete", "path": rq[1], "exp": rq[2]}
